@@ -518,16 +518,21 @@ class ReadingChecker:
         return FALSE
 
 
-def _closure_value(world: World, val) -> Optional[V]:
-    """Symbolic value of a closure cell's content: classes of lsprotocol.types, and plain constants."""
-    from pyvc.symex import VClass, const_value
+def _closure_value(world: World, val, depth: int = 0) -> Optional[V]:
+    """Symbolic value of a closure cell / module-level constant: classes of lsprotocol.types, builtin types, plain constants and
+    (nested) tuples / lists of those."""
+    from pyvc.symex import VClass, VList, VTuple, const_value
 
     if isinstance(val, type) and getattr(val, "__module__", "") == "lsprotocol.types":
         return VClass(val.__name__, world.class_id(val.__name__))
+    if isinstance(val, type) and val in (bool, int, str, float, list, dict, tuple, object):
+        return world.namespaces["builtins"].get(val.__name__)
     if val is None or isinstance(val, (bool, int, float, str)):
         return const_value(val)
-    if isinstance(val, (tuple, list)) and all(x is None or isinstance(x, (bool, int, float, str)) for x in val):
-        return const_value(val)
+    if isinstance(val, (tuple, list)) and depth < 4:
+        items = [_closure_value(world, x, depth + 1) for x in val]
+        if all(i is not None for i in items):
+            return VTuple(items) if isinstance(val, tuple) else VList(items)
     return None
 
 
